@@ -536,7 +536,7 @@ def run(rep: Report) -> None:
     rep.rule("R19.11", "no assert statement in the functions that validate or register names (python -O deletes it)", floor=5)
     rep.rule("R19.12", "the name and symbol registries are plain dicts", floor=5)
     rep.rule("R19.10", "named(name) is the name registry's entry for that name", floor=2)
-    rep.rule("R19.9", "no shipped dimension is declared under two names (a second Dimension.derive of an equal dimension renames the first)", floor=1)
+    rep.rule("R19.9", "no shipped dimension or prefix is declared under two names (a second Dimension.derive / Prefix(...) of an equal object renames or doubly names the first)", floor=2)
     rep.rule("R19.6", "no memoised function reads the name/symbol registries without being invalidated by their writers", floor=1)
 
     # R19.1
@@ -615,6 +615,19 @@ def run(rep: Report) -> None:
                  f"(structurally equal dimensions are one interned object): Dimension.named({old!r}) still finds it but it now reports {new!r}", where)
     if not ev.dim_renames:
         rep.ok("R19.9", "shipped-dimensions", note=f"{len(ev.dim_by_name)} named dimensions, none declared under two names")
+    # ... and one prefix object, one declared name: `Ronto = Prefix(10, -24, name="ronto", symbol="r")` hands back Yocto, whose
+    # initialised arm registers the further name - "ronto" then resolves to 10**-24
+    pseen: Dict[Tuple[int, Any], Tuple[str, str]] = {}
+    for p, name, symbol, module, where in ev.prefix_decls:
+        if p is None or not name:
+            continue
+        k = (p.base, p.exponent)
+        if k in pseen and pseen[k][0] != name:
+            rep.fail("R19.9", f"prefix:{pseen[k][0]}->{name}", f"the shipped declaration at {where} constructs the prefix {p.base}**{p.exponent} already declared as "
+                     f"{pseen[k][0]!r} ({pseen[k][1]}) again as {name!r} (equal prefixes are one interned object): the name {name!r} is bound to the factor of "
+                     f"{pseen[k][0]!r}", where)
+        pseen.setdefault(k, (name, where))
+    rep.ok("R19.9", "shipped-prefixes", note=f"{len(pseen)} named prefixes")
     lookup_by_name(rep, prog)
     no_asserts_in_definitions(rep, prog, resolver)
     registries_are_dicts(rep, prog)
